@@ -128,6 +128,8 @@ func TestMakeWitnesses(t *testing.T) {
 	for name, c := range map[string]c15Case{
 		"fixed-F5-digest-algorithm-257-vs-1": {Kind: "pair", H1: &data.ContentHash{Graph: &data.ContentHash_Graph{Hash: h, DigestAlgorithm: 1, CanonicalizationAlgorithm: 1}}, H2: &data.ContentHash{Graph: &data.ContentHash_Graph{Hash: h, DigestAlgorithm: 257, CanonicalizationAlgorithm: 1}}},
 		"fixed-F5-raw-roundtrip-256":         {Kind: "hash", H1: &data.ContentHash{Raw: &data.ContentHash_Raw{Hash: h, DigestAlgorithm: 256, FileExtension: "pdf"}}},
+		"fixed-F14-non-ascii-iri":            {Kind: "string", S: "regen:€.rdf"},
+		"fixed-F14-invalid-utf8-iri":         {Kind: "string", S: "regen:\x8b."},
 		"fixed-F5-merkle-tree-256":           {Kind: "hash", H1: &data.ContentHash{Graph: &data.ContentHash_Graph{Hash: h, DigestAlgorithm: 1, CanonicalizationAlgorithm: 1, MerkleTree: 256}}},
 	} {
 		_ = os.MkdirAll(filepath.Join(eng.Root(), "witness", "C15"), 0o755)
